@@ -272,7 +272,7 @@ func classifyHisto(c HistoCase) (bool, []string) {
 var histoSpec = pbt.Spec[HistoCase]{
 	Property: "C14", Name: "histogram",
 	Rule:   "history of (key,inc) samples (profiles pos/zero/neg/mixed/huge/all-equal; keys incl. empty, >16 cells, multi-byte, ESC, invalid UTF-8) fed to the real MatchCounter and rendered through the transcribed writeHistoOutput after every cut (1-5 renders of the growing state) x --num 0..30 x --atleast x sort x scale x format x bars/percentage x colour x unicode (+ the --all table). Oracle: no panic/hang; line i shows key i and formatter(value i) with values from an independent fold; percentage = value/total; bars <= 50 cells, non-decreasing in the value, empty for values <= 0, proportional on the linear scale, full for the largest value ever shown. Non-trivial: >=3 rows shown, >=2 renders, and a hostile feature (max<=0, negative/zero/huge value, empty/long/multi-byte key, limit 0, more rows than fit, all equal)",
-	Budget: pbt.Budget{Quick: 24000, Thorough: 600000},
+	Budget: pbt.Budget{Quick: 40000, Thorough: 800000},
 	Gen:    genHisto, Check: heapGuard(checkHisto), Watchdog: caseWatchdog, Classify: classifyHisto,
 }
 
